@@ -81,6 +81,14 @@ fn write_file(root: &Path, f: &Value) -> Vec<u8> {
     data
 }
 
+fn set_newer(root: &Path, newer: &[String]) {
+    // generated files are normally younger than their sources: give them a later (still fixed) time
+    for p in newer {
+        let t = filetime::FileTime::from_unix_time(SENTINEL + 86400 * 400, 0);
+        let _ = filetime::set_file_times(root.join(p), t, t);
+    }
+}
+
 fn set_sentinel(dir: &Path) {
     if let Ok(rd) = std::fs::read_dir(dir) {
         for e in rd.flatten() {
@@ -326,11 +334,37 @@ fn run_case(case: &Value, root: &Path, cli: &str, templates: &Value) -> Value {
         initial.insert(f["path"].as_str().unwrap().to_string(), d);
     }
     let sentinel = case.get("sentinel").and_then(|x| x.as_bool()).unwrap_or(false);
+    let newer: Vec<String> = case.get("newer").and_then(|x| x.as_array()).map(|a| a.iter().filter_map(|x| x.as_str().map(|s| s.to_string())).collect()).unwrap_or_default();
     let mut steps_out = vec![];
     for st in case["steps"].as_array().unwrap() {
         if let Some(w) = st.get("write") {
             let _ = write_file(root, w);
             steps_out.push(json!({}));
+        } else if let Some(t) = st.get("tamper") {
+            // single-point tampering of an existing file; reports whether the bytes changed
+            let p = root.join(t["path"].as_str().unwrap());
+            let how = t["how"].as_str().unwrap_or("none");
+            let old = std::fs::read(&p).unwrap_or_default();
+            let mut new = old.clone();
+            let n = new.len();
+            match how {
+                "append1" => new.push(b'x'),
+                "append-many" => new.extend_from_slice(&vec![b'y'; 9000]),
+                "drop-last" => { new.pop(); }
+                "flip-first" => { if n > 0 { new[0] ^= 1; } }
+                "flip-mid" => { if n > 0 { new[n / 2] ^= 1; } }
+                "flip-last" => { if n > 0 { new[n - 1] ^= 1; } }
+                "insert-mid" => new.insert(n / 2, b'Q'),
+                _ => {}
+            }
+            let mut changed = new != old;
+            if how == "delete" {
+                let _ = std::fs::remove_file(&p);
+                changed = true;
+            } else if changed {
+                std::fs::write(&p, &new).unwrap();
+            }
+            steps_out.push(json!({"changed": changed}));
         } else if let Some(d) = st.get("delete") {
             let p = root.join(d.as_str().unwrap());
             let _ = std::fs::remove_file(&p);
@@ -338,6 +372,7 @@ fn run_case(case: &Value, root: &Path, cli: &str, templates: &Value) -> Value {
         } else if let Some(r) = st.get("run") {
             if sentinel {
                 set_sentinel(root);
+                set_newer(root, &newer);
             }
             let mut res = if r.get("via").and_then(|x| x.as_str()) == Some("cli") { run_cli(root, r, cli) } else { run_lib(root, r) };
             let mut tree = Map::new();
@@ -365,6 +400,7 @@ fn run_case(case: &Value, root: &Path, cli: &str, templates: &Value) -> Value {
         } else if st.get("snapshot").is_some() {
             if sentinel {
                 set_sentinel(root);
+                set_newer(root, &newer);
             }
             let mut tree = Map::new();
             snapshot(root, "", &mut tree);
